@@ -224,6 +224,34 @@ def firstDiff (a b : List (Int × Int × Cell)) : String :=
       if (x, y, c) = (x', y', c') then firstDiff ra rb
       else s!"got {cellStr x y c} want {cellStr x' y' c'}"
 
+/-- Observation through the reference terminal after a `Render` (the property's observation point):
+    a cluster of display width `W ≥ 2` shown at `(x,y)` also occupies the columns `x+1 … x+W-1`.
+    Returns the first displayed wide cluster placed by the op whose continuation columns are not all
+    inside the clip region.  Cells shadowed by an earlier wide cluster of the row are not displayed;
+    a cluster that does not fit in the rest of the *screen* row is rendered as a blank (C01, F02
+    repaired), so it occupies one column. -/
+def spill (p : Parsed) (win : Win) (s : Screen) (cells : List (Int × Int × Cell)) : Option (Int × Int × Int × Int) :=
+  let widthOf (c : Cell) : Int := if c.w = 0 then p.lib.cw c.g else c.w
+  let cellAt (x y : Int) : Cell := match cells.find? (fun (x', y', _) => x' = x ∧ y' = y) with
+    | some (_, _, c) => c
+    | none => sentinel
+  let rec scan (y : Int) (xs : List Int) (skip : Nat) : Option (Int × Int × Int × Int) :=
+    match xs with
+    | [] => none
+    | x :: rest =>
+      match skip with
+      | k + 1 => scan y rest k
+      | 0 =>
+        let c := cellAt x y
+        let w := widthOf c
+        if w ≥ 2 ∧ x + w ≤ s.cols then
+          let changed := c != sentinel
+          match (if changed then (upTo w).find? (fun i => i ≥ 1 ∧ ¬ Spec.Window.visible win s (x + i) y) else none) with
+          | some i => some (x, y, w, x + i)
+          | none => scan y rest (w.toNat - 1)
+        else scan y rest 0
+  (upTo s.rows).findSome? fun y => scan y (upTo s.cols) 0
+
 def verdict (p : Parsed) (impl : Impl) : String :=
   match chainOfGeoms impl.geoms with
   | none => "FAIL unreadable geometry"
@@ -239,8 +267,13 @@ def verdict (p : Parsed) (impl : Impl) : String :=
       | none => "FAIL bad op"
       | some ops =>
         let want := Spec.Window.expected win s ops
-        if impl.cells = want then "ok"
-        else s!"FAIL placement {p.kind}: {firstDiff impl.cells want}"
+        if impl.cells ≠ want then s!"FAIL placement {p.kind}: {firstDiff impl.cells want}"
+        else if ["print", "wrap", "println", "trunc"].contains p.kind then
+          match spill p win s impl.cells with
+          | some (x, y, w, xo) =>
+              s!"FAIL spill {p.kind}: the cluster of width {w} placed at {x},{y} is displayed up to column {xo}, outside the clip region"
+          | none => "ok"
+        else "ok"
 
 def charsStr (l : List Chr) : String :=
   if l.isEmpty then "-" else ",".intercalate (l.map fun c => s!"{c.g}.{c.w}")
